@@ -594,6 +594,9 @@ bad_descriptors = st.one_of(
               st.sampled_from([[], {}, [1]])).map(list),
     st.tuples(st.sampled_from(["decimal.Decimal"]), st.sampled_from([5, "s", None, True])).map(list),
     st.tuples(st.sampled_from(["decimal.Decimal", "fractions.Fraction"]), st.sampled_from([[1, 2, 3, 4, 5], {"nope": 1}])).map(list),
+    # descriptors that are not even [name, arguments], and constructors that fail with an exception of their own
+    st.sampled_from([[], ["decimal.Decimal"], 5, "decimal.Decimal", None, True, {"a": 1}, [12, []], [None, []], [["decimal.Decimal"], []],
+                     ["decimal.Decimal", ["abc"]], ["fractions.Fraction", [1, 0]], ["datetime.date", [2024, 13, 1]], ["collections.OrderedDict", [5]]]),
 )
 
 
